@@ -678,7 +678,18 @@ func checkC18(P *Program, r *Result, tier string) {
 		}
 		for k := range kinds {
 			if !seenKinds[k] {
-				r.add("PREPEND", shortName(fn), "branch", "*"+k+" has its own branch", P.pos(fn.Pos()), false, "no type assertion to *"+k)
+				// a kind without a branch of its own is fine when the interface branch catches it and builds the same kind
+				shared := false
+				if ifaceAssert != nil && kinds[k] == "NewApplicationException" {
+					if tp := P.tpkg(rel); tp != nil {
+						if obj := tp.Types.Scope().Lookup(k); obj != nil {
+							if it, isI := ifaceAssert.AssertedType.Underlying().(*types.Interface); isI && types.Implements(types.NewPointer(obj.Type()), it) {
+								shared = true
+							}
+						}
+					}
+				}
+				r.add("PREPEND", shortName(fn), "branch", "*"+k+" has its own branch or shares the branch of its kind", P.pos(fn.Pos()), shared, "no type assertion to *"+k)
 			}
 		}
 		if ifaceAssert != nil {
@@ -698,7 +709,7 @@ func checkC18(P *Program, r *Result, tier string) {
 					}
 				}
 			}
-			r.add("PREPEND", shortName(fn), "branch", "TypeId interface consulted only after the three concrete assertions failed", P.pos(instrPos(ifaceAssert)), after, "")
+			r.add("PREPEND", shortName(fn), "branch", "TypeId interface consulted only after the concrete assertions failed", P.pos(instrPos(ifaceAssert)), after, "")
 			r.add("PREPEND", shortName(fn), "branch", "foreign exception ⇒ NewApplicationException(t.TypeId(), prepend+t.Error())", P.pos(instrPos(ifaceAssert)), good, "")
 		} else {
 			r.add("PREPEND", shortName(fn), "branch", "foreign exception with TypeId ⇒ application exception", P.pos(fn.Pos()), false, "no interface assertion")
@@ -733,48 +744,9 @@ func checkC18(P *Program, r *Result, tier string) {
 		recv, target := ssa.Value(fn.Params[0]), ssa.Value(fn.Params[1])
 		trueOK, elseOK := false, false
 		detail := ""
+		trueOK, detail = isTrueOnlyUnderEquality(fn, 0)
 		for _, ret := range returnsOf(fn) {
 			v := ret.Results[0]
-			if cst, ok := v.(*ssa.Const); ok {
-				if cst.Value != nil && constant.BoolVal(cst.Value) {
-					// must be guarded by: assertion ok, TypeId() == e.t, Error() == e.m
-					var conds []*ssa.BinOp
-					for b := ret.Block(); b != nil; b = b.Idom() {
-						if len(b.Preds) == 1 {
-							if iff, ok := b.Preds[0].Instrs[len(b.Preds[0].Instrs)-1].(*ssa.If); ok && b.Preds[0].Succs[0] == b {
-								if bo, ok := iff.Cond.(*ssa.BinOp); ok && bo.Op == token.EQL {
-									conds = append(conds, bo)
-								}
-							}
-						}
-					}
-					idEq, txtEq := false, false
-					for _, bo := range conds {
-						for _, pair := range [][2]ssa.Value{{bo.X, bo.Y}, {bo.Y, bo.X}} {
-							if c := asCall(pair[0]); c != nil && c.Common().IsInvoke() {
-								ld, isLd := pair[1].(*ssa.UnOp)
-								if !isLd {
-									continue
-								}
-								p := pathOf(ld.X)
-								if c.Common().Method.Name() == "TypeId" && strings.HasSuffix(p, ".t") && strings.HasPrefix(p, "P:"+recv.Name()) {
-									idEq = true
-								}
-								if c.Common().Method.Name() == "Error" && strings.HasSuffix(p, ".m") && strings.HasPrefix(p, "P:"+recv.Name()) {
-									txtEq = true
-								}
-							}
-						}
-					}
-					trueOK = idEq && txtEq
-					if !trueOK {
-						detail = "the 'true' result must be guarded by TypeId()==e.t and Error()==e.m"
-					}
-				} else {
-					detail = "constant false result"
-				}
-				continue
-			}
 			if c := staticCallNamed(v, "Is"); c != nil && fnPkgPath(c.Common().StaticCallee()) == "errors" {
 				ld, isLd := c.Common().Args[0].(*ssa.UnOp)
 				if isLd && pathOf(ld.X) == "P:"+recv.Name()+".err" && c.Common().Args[1] == target {
@@ -855,4 +827,91 @@ func wrapHelperRule(P *Program, r *Result, rel string) {
 		r.add("WRAP", shortName(fn), "return", "identity on errors that already are *ProtocolException", P.pos(fn.Pos()), idOK, detail)
 		r.add("WRAP", shortName(fn), "return", "otherwise the argument is stored in the wrapped-cause field of a new protocol exception", P.pos(fn.Pos()), wrapOK, detail)
 	}
+}
+
+// isTrueOnlyUnderEquality: every way fn (a method with the receiver first and the
+// target error second) can yield true implies TypeId() == recv.t and Error() ==
+// recv.m for the target; boolean helpers on the same receiver are followed.
+func isTrueOnlyUnderEquality(fn *ssa.Function, depth int) (bool, string) {
+	if fn == nil || fn.Blocks == nil || depth > 2 || len(fn.Params) < 2 {
+		return false, "not understood"
+	}
+	recv := fn.Params[0]
+	classify := func(bo *ssa.BinOp) (id, txt bool) {
+		for _, pair := range [][2]ssa.Value{{bo.X, bo.Y}, {bo.Y, bo.X}} {
+			c := asCall(pair[0])
+			ld, isLd := pair[1].(*ssa.UnOp)
+			if c == nil || !c.Common().IsInvoke() || !isLd {
+				continue
+			}
+			p := pathOf(ld.X)
+			if !strings.HasPrefix(p, "P:"+recv.Name()+".") {
+				continue
+			}
+			if c.Common().Method.Name() == "TypeId" && strings.HasSuffix(p, ".t") {
+				id = true
+			}
+			if c.Common().Method.Name() == "Error" && strings.HasSuffix(p, ".m") {
+				txt = true
+			}
+		}
+		return
+	}
+	any := false
+	for _, ret := range returnsOf(fn) {
+		v := ret.Results[0]
+		idEq, txtEq := false, false
+		note := func(c ssa.Value, truth bool) {
+			if bo, ok := c.(*ssa.BinOp); ok && ((bo.Op == token.EQL && truth) || (bo.Op == token.NEQ && !truth)) {
+				i, t := classify(bo)
+				idEq = idEq || i
+				txtEq = txtEq || t
+			}
+			// the result of a boolean helper on the same receiver and target
+			if cc, ok := c.(*ssa.Call); ok && truth {
+				cal := cc.Common().StaticCallee()
+				if cal != nil && cal != fn && inRepo(cal) && len(cc.Common().Args) >= 2 && cc.Common().Args[0] == ssa.Value(recv) && cc.Common().Args[1] == ssa.Value(fn.Params[1]) {
+					if ok2, _ := isTrueOnlyUnderEquality(cal, depth+1); ok2 {
+						idEq, txtEq = true, true
+					}
+				}
+			}
+		}
+		for _, dc := range blockConds(ret.Block(), nil, 0) {
+			note(dc.Cond, dc.Truth)
+		}
+		switch x := v.(type) {
+		case *ssa.Const:
+			if x.Value == nil || !constant.BoolVal(x.Value) {
+				continue // a false result needs no justification
+			}
+		case *ssa.BinOp:
+			note(x, true)
+		case *ssa.Phi:
+			// a && b compiled to a value: every operand that can make it true counts
+			for _, dc := range condImplies(x, true, 0) {
+				note(dc.Cond, dc.Truth)
+			}
+		case *ssa.Call:
+			cal := x.Common().StaticCallee()
+			if cal != nil && cal != fn && len(x.Common().Args) >= 2 && x.Common().Args[0] == ssa.Value(recv) && x.Common().Args[1] == ssa.Value(fn.Params[1]) && inRepo(cal) {
+				if ok, _ := isTrueOnlyUnderEquality(cal, depth+1); ok {
+					idEq, txtEq = true, true
+				}
+			} else {
+				continue // e.g. errors.Is(cause, target): judged by the other obligation
+			}
+		default:
+			continue
+		}
+		any = true
+		if !(idEq && txtEq) {
+			return false, "the 'true' result must be guarded by TypeId()==e.t and Error()==e.m"
+		}
+	}
+	// a test of a boolean helper's result that leads to `return true`
+	if !any {
+		return false, "no path yields true under the equality conditions"
+	}
+	return true, ""
 }
